@@ -98,7 +98,7 @@ def lift(v):
         if v != v:
             return x_nan()
         if v in (INF, -INF):
-            return X(z3.IntVal(PINF if v > 0 else NINF), z3.RealVal(0))
+            return X(xops.PINFV if v > 0 else xops.NINFV)
         fr = Fraction(v)
         return Z(z3.RealVal(str(fr.numerator) + '/' + str(fr.denominator)), REAL)
     if isinstance(v, str):
@@ -158,6 +158,7 @@ class Engine:
         self.unsupported = []
         self.paths = 0
         self.spec_mode = 0
+        self.binders = 0
         self.stats = {'z3_time': 0.0, 'checks': 0}
 
     # ------------------------------------------------------------------ path machinery
@@ -187,7 +188,7 @@ class Engine:
 
     def feasible(self):
         t0 = time.time()
-        self.solver.set('timeout', 1500)
+        self.solver.set('timeout', 400)
         r = self.solver.check()
         self.stats['z3_time'] += time.time() - t0
         self.stats['checks'] += 1
@@ -294,21 +295,22 @@ class Engine:
 
     def fresh_z(self, base, ty):
         if ty == XR:
-            tag = z3.Int(fresh_name(base + '.tag'))
-            self.assume(z3.And(tag >= 0, tag <= 3))
-            return X(tag, z3.Real(fresh_name(base + '.val')))
+            t = z3.Const(fresh_name(base), sort_of(XR))
+            self.assume(xops.wf(t))
+            return X(t)
         return Z(z3.Const(fresh_name(base), sort_of(ty)), ty)
 
     def base_closure(self, base, ty):
         """closure over a fresh uninterpreted array"""
-        if ty == XR:
-            tags = z3.Array(fresh_name(base + '.tags'), z3.IntSort(), z3.IntSort())
-            vals = z3.Array(fresh_name(base + '.vals'), z3.IntSort(), z3.RealSort())
-            k = z3.Int(fresh_name('k'))
-            self.assumptions_quant(z3.ForAll([k], z3.And(z3.Select(tags, k) >= 0, z3.Select(tags, k) <= 3)))
-            return lambda i: X(z3.Select(tags, i), z3.Select(vals, i))
         A = z3.Array(fresh_name(base), z3.IntSort(), sort_of(ty))
-        return lambda i: Z(z3.Select(A, i), ty)
+        if ty == XR:
+            k = z3.Int(fresh_name('k'))
+            self.assumptions_quant(z3.ForAll([k], xops.wf(z3.Select(A, k)), patterns=[z3.Select(A, k)]))
+            clo = lambda i: X(z3.Select(A, i))
+        else:
+            clo = lambda i: Z(z3.Select(A, i), ty)
+        clo.base = A
+        return clo
 
     def assumptions_quant(self, t):
         self.assumptions.append(t)
@@ -339,8 +341,10 @@ class Engine:
         return self.new_arr(a.n, a.ty, clo, kind or a.kind, fresh=fresh, writeable=writeable, shape=a.shape)
 
     def mat(self, a):
-        """materialise an array value as a z3 Array term, normalised to a default outside [0, n) so that
-        arrays that agree on their range are extensionally equal (used by spec functions over arrays)"""
+        """materialise an array value as a z3 Array term (a lambda), normalised to a default outside [0, n) so
+        that arrays that agree on their range denote the same array (used by spec functions over arrays).
+        An existing materialisation that provably agrees on the whole range is reused, so that code and spec
+        terms become syntactically identical (the query is a consequence check of the current assumptions)."""
         clo = self.st.heap[a.ident]
         key = ('mat', a.ident, id(clo), str(a.off), a.stride, str(a.n))
         hit = self.st.ghost.get(key)
@@ -348,49 +352,83 @@ class Engine:
             return hit
         n = a.n if not isinstance(a.n, int) else z3.IntVal(a.n)
         k = z3.Int(fresh_name('mk'))
-        if a.ty == XR:
-            T = z3.Array(fresh_name('M.tag'), z3.IntSort(), z3.IntSort())
-            V = z3.Array(fresh_name('M.val'), z3.IntSort(), z3.RealSort())
-            e = self.rd(a, k)
-            inr = z3.And(k >= 0, k < n)
-            self.assumptions_quant(z3.ForAll([k], z3.And(
-                z3.Select(T, k) == z3.If(inr, e.tag, z3.IntVal(0)),
-                z3.Select(V, k) == z3.If(z3.And(inr, e.tag == 0), e.val, z3.RealVal(0))),
-                patterns=[z3.Select(T, k), z3.Select(V, k)]))
-            r = (T, V)
+        e = self.rd(a, k)
+        dflt = {INT: z3.IntVal(0), REAL: z3.RealVal(0), BOOL: z3.BoolVal(False), STR: z3.IntVal(0),
+                XR: xops.fin(z3.RealVal(0))}[a.ty]
+        et = e.t
+        if self.binders > 0:
+            # under a quantifier of the contract language the array may mention bound variables: a lambda term
+            A = z3.Lambda([k], z3.If(z3.And(k >= 0, k < n), et, dflt))
         else:
             A = z3.Array(fresh_name('M'), z3.IntSort(), sort_of(a.ty))
-            e = self.rd(a, k)
-            dflt = {INT: z3.IntVal(0), REAL: z3.RealVal(0), BOOL: z3.BoolVal(False), STR: z3.IntVal(0)}[a.ty]
-            self.assumptions_quant(z3.ForAll([k], z3.Select(A, k) == z3.If(z3.And(k >= 0, k < n), e.t, dflt),
+            self.assumptions_quant(z3.ForAll([k], z3.Select(A, k) == z3.If(z3.And(k >= 0, k < n), et, dflt),
                                              patterns=[z3.Select(A, k)]))
-            r = A
-            # automatic extensionality step: an existing materialised array that provably agrees on the whole
-            # range is the same term (the query is a consequence check, the equality is entailed, not assumed)
-            for okey, (oA, oarr, on) in list(self.st.ghost.get('mats', {}).items()):
-                if oarr.ty != a.ty:
-                    continue
-                d = z3.Int(fresh_name('d'))
-                try:
-                    e1 = self.st.ghost['matclo'][okey](d)
-                    e2 = self.rd(a, d)
-                    neg = z3.Or(on != n, z3.And(d >= 0, d < n, e1.t != e2.t))
-                except Exception:
-                    continue
-                self.solver.push()
-                self.solver.add(neg)
-                self.solver.set('timeout', 2000)
-                res = self.solver.check()
-                self.solver.pop()
-                if res == z3.unsat:
-                    self.assumptions_quant(oA == A)
-                    self.stats['mat_ext'] = self.stats.get('mat_ext', 0) + 1
-            self.st.ghost.setdefault('mats', {})[key] = (A, a, n)
-            clo0, off0, str0 = clo, a.off, a.stride
-            self.st.ghost.setdefault('matclo', {})[key] = \
-                (lambda i, clo0=clo0, off0=off0, str0=str0: clo0(off0 + i * str0))
-        self.st.ghost[key] = r
-        return r
+        reuse = None
+        for okey, (oA, oarr, on, oclo) in list(self.st.ghost.get('mats', {}).items()):
+            if oarr.ty != a.ty:
+                continue
+            d = z3.Int(fresh_name('d'))
+            try:
+                e1 = oclo(d)
+                e2 = self.rd(a, d)
+                neg = z3.Or(on != n, z3.And(d >= 0, d < n, e1.t != e2.t))
+            except Exception:
+                continue
+            self.solver.push()
+            self.solver.add(neg)
+            self.solver.set('timeout', 2000)
+            res = self.solver.check()
+            self.solver.pop()
+            if res == z3.unsat:
+                reuse = oA
+                self.stats['mat_ext'] = self.stats.get('mat_ext', 0) + 1
+                break
+        if reuse is not None:
+            A = reuse
+        else:
+            off0, str0 = a.off, a.stride
+            self.st.ghost.setdefault('mats', {})[key] = \
+                (A, a, n, (lambda i, clo0=clo, off0=off0, str0=str0: clo0(off0 + i * str0)))
+        self.st.ghost[key] = A
+        return A
+
+    # ---- sequence algebra: arrays as opaque terms built from closed bases by uninterpreted operations, so that
+    # reductions (mean, sum, median, arg-extrema) of the same numpy expression are the same term in code and spec
+    _seq_funcs = {}
+
+    @classmethod
+    def seq_fn(cls, name, *sorts):
+        key = (name,) + tuple(str(x) for x in sorts)
+        if key not in cls._seq_funcs:
+            cls._seq_funcs[key] = z3.Function(name, *sorts)
+        return cls._seq_funcs[key]
+
+    def seq(self, a):
+        from .values import SeqSort
+        sx = getattr(a, 'sx', None)
+        if sx is not None and getattr(a, 'sx_heap', None) is self.st.heap.get(a.ident):
+            return sx
+        n = a.n if not isinstance(a.n, int) else z3.IntVal(a.n)
+        A = self.arr_term(a)
+        f = self.seq_fn('seq_of_' + a.ty, A.sort(), z3.IntSort(), SeqSort)
+        return f(A, n)
+
+    def arr_term(self, a):
+        """a z3 Array term for array value a: the closed array constant itself for a whole base array,
+        otherwise its materialisation"""
+        clo = self.st.heap[a.ident]
+        base = getattr(clo, 'base', None)
+        if base is not None and a.stride == 1 and isinstance(a.off, int) and a.off == 0:
+            return base
+        return self.mat(a)
+
+    def set_seq(self, a, name, *args):
+        """record that array a is op `name` applied to args (z3 terms / Seq terms)"""
+        from .values import SeqSort
+        f = self.seq_fn(name, *[x.sort() for x in args], SeqSort)
+        a.sx = f(*args)
+        a.sx_heap = self.st.heap.get(a.ident)
+        return a
 
     class _EntryView:
         def __init__(self, E):
@@ -421,6 +459,25 @@ class Engine:
     def entry_view(self):
         return Engine._EntryView(self)
 
+    def unwrap(self, v):
+        """an optional value that is provably not None on this path is its payload"""
+        if not isinstance(v, Opt):
+            return v
+        self.solver.push()
+        self.solver.add(v.isnone)
+        self.solver.set('timeout', 1000)
+        r = self.solver.check()
+        self.solver.pop()
+        if r == z3.unsat:
+            return v.val
+        self.solver.push()
+        self.solver.add(z3.Not(v.isnone))
+        r = self.solver.check()
+        self.solver.pop()
+        if r == z3.unsat:
+            return None
+        return v
+
     def mutate(self, ident, node, what=''):
         """frame condition: stores may only reach objects allocated on this path or listed in modifies"""
         if self.spec_mode:
@@ -438,6 +495,7 @@ class Engine:
         self.mi = mi
         self.fdef = fdef
         self.contract = contract
+        self.case = case
         self.fn_short = fn_short or qual.replace('bycycle.', '')
         if case.get('label'):
             self.fn_short += '[%s]' % case['label']
@@ -800,7 +858,11 @@ class Engine:
     def ev_Name(self, n):
         env = self.st.env
         if n.id in env:
-            return env[n.id]
+            v = env[n.id]
+            if isinstance(v, Opt) and not self.spec_mode:
+                v = self.unwrap(v)
+                env[n.id] = v
+            return v
         if self.spec_mode and n.id in self.spec_funcs:
             return self.spec_funcs[n.id]
         mi = self.mod_stack[-1]
@@ -1011,7 +1073,9 @@ class Engine:
             b = Z(b, BOOL)
         if (a is None) != (b is None):
             val = a if b is None else b
-            return Opt(c if a is None else z3.Not(c), lift(val))
+            if isinstance(val, Opt):
+                return Opt(z3.Or(val.isnone, c if a is None else z3.Not(c)), val.val)
+            return Opt(c if a is None else z3.Not(c), val if isinstance(val, (tuple, Opaque, SDict)) else lift(val))
         if isinstance(a, Opt) or isinstance(b, Opt):
             ao = a if isinstance(a, Opt) else Opt(z3.BoolVal(a is None), lift(a) if a is not None else b.val)
             bo = b if isinstance(b, Opt) else Opt(z3.BoolVal(b is None), lift(b) if b is not None else a.val)
@@ -1021,7 +1085,7 @@ class Engine:
         a, b = lift(a), lift(b)
         if isinstance(a, X) or isinstance(b, X):
             a, b = xops.to_x(a), xops.to_x(b)
-            return X(z3.If(c, a.tag, b.tag), z3.If(c, a.val, b.val))
+            return X(z3.If(c, a.t, b.t))
         if a.ty == b.ty:
             return Z(z3.If(c, a.t, b.t), a.ty)
         if {a.ty, b.ty} <= {INT, REAL, BOOL}:
